@@ -2,7 +2,8 @@
    Statements only; proofs are [exact].  Model level: every static-solver entry point of
    Model.Solvers (through [run_query]), every framework view, argument list, encoder, fuel,
    n_vars discipline and EVERY oracle (i.e. every sequence of answers, valid or not). *)
-From Crusta Require Import Sat.Cnf Sat.Prog Model.Solvers Proofs.AbortProofs.
+From Crusta Require Import Sat.Cnf Sat.Prog Model.Store Model.Solvers Model.Dynamic Proofs.AbortProofs Proofs.AbortDyn.
+Import ListNotations.
 
 (* If the run ends in Abort, its most recent SAT event is an Unknown answer and no earlier answer
    was Unknown; if it ends in any other way (an outcome, a panic, fuel exhaustion) no answer it
@@ -23,5 +24,84 @@ Theorem C17_script_unknown_aborts : forall script thr d fuel s q cert e g al r,
   exists st', r = Abort st'.
 Proof. exact AbortProofs.script_unknown_aborts. Qed.
 
+(* ---- the dynamic solvers (Model/Dynamic.v: all six kinds, through [dyn_query]) --------------
+   A dynamic solver keeps its SAT session across queries, so a query starts in an arbitrary program
+   state [ps] whose log [rlog ps] (most recent event first) already holds the events of everything
+   done before.  The statements therefore speak about [new], the events the query itself logged:
+   [rlog ps' = new ++ rlog ps].
+     no_unknown new    no event of [new] is a SAT answer Unknown;
+     aborted_log new   [new = (k, ESolve a Unknown) :: r] with [no_unknown r]: the most recent
+                       event is an Unknown answer and it is the only one.
+   For EVERY solver state [s] (reachable or not), kind, query, label, certificate flag, fuel,
+   threshold, oracle (any answers) and start state: a query that ends in Abort has logged an
+   Unknown answer as its last event and none before; a query that ends in any other way (an
+   answer, a panic, fuel exhaustion) consumed no Unknown answer.  Only [Done] carries a status or
+   a certificate. *)
+Theorem C17_dynamic_unknown_aborts :
+  forall oracle (L : Type) (leqb : L -> L -> bool) thr fuel (s : dsolver L) q cert l ps,
+  match dyn_query oracle L leqb thr fuel s q cert l ps with
+  | Abort ps' => exists new, rlog ps' = new ++ rlog ps /\ aborted_log new
+  | Done _ ps' | Panic ps' | OutOfFuel ps' => exists new, rlog ps' = new ++ rlog ps /\ no_unknown new
+  end.
+Proof. exact AbortDyn.dyn_unknown_aborts. Qed.
+
+(* creating a dynamic solver of any kind always returns and consumes no SAT answer *)
+Theorem C17_dynamic_new_no_answer : forall (L : Type) (leqb : L -> L -> bool) k ps,
+  exists s ps', dyn_new L leqb k ps = Done s ps' /\ calls ps' = calls ps /\
+    exists new, rlog ps' = new ++ rlog ps /\ no_unknown new.
+Proof. exact AbortDyn.dyn_new_no_answer. Qed.
+
+(* replay form: if the events a dynamic query logged contain an Unknown answer, it was aborted *)
+Theorem C17_dynamic_script_unknown_aborts :
+  forall script (L : Type) (leqb : L -> L -> bool) thr fuel (s : dsolver L) q cert l ps r,
+  r = dyn_query (script_oracle script) L leqb thr fuel s q cert l ps ->
+  (exists new k a, rlog (final_st r) = new ++ rlog ps /\ In (k, ESolve a Unknown) new) ->
+  exists ps', r = Abort ps'.
+Proof. exact AbortDyn.dyn_script_unknown_aborts. Qed.
+
+(* the static entry point again, now from ANY start state (a query put to a solver object after
+   other queries), in the same relative form *)
+Theorem C17_unknown_aborts_since : forall oracle thr fuel s q cert e g al ps,
+  match run_query oracle thr fuel s q cert e g al ps with
+  | Abort ps' => exists new, rlog ps' = new ++ rlog ps /\ aborted_log new
+  | Done _ ps' | Panic ps' | OutOfFuel ps' => exists new, rlog ps' = new ++ rlog ps /\ no_unknown new
+  end.
+Proof. exact AbortDyn.run_query_unknown_aborts_since. Qed.
+
+(* Abort is really reachable in the dynamic model, also after answers that were not Unknown: the
+   preferred solver on 1 -> 2, skeptical query of 1, first answer a model, second answer Unknown;
+   and the recompute wrapper (static stable solver) with a first answer Unknown. *)
+Definition c17_ex_solver (k : dkind) : option (dsolver nat * Prog.st) :=
+  match dyn_new nat Nat.eqb k (init_st CadicalLike) with
+  | Done s ps =>
+      Some (fold_left (fun s o => fst (dyn_update nat Nat.eqb s o))
+                      [OpNewArg 1; OpNewArg 2; OpNewAtt 1 2] s, ps)
+  | _ => None
+  end.
+Example C17_dynamic_abort_example :
+  (match c17_ex_solver KPr with
+   | Some (s, ps) =>
+       match dyn_query (script_oracle
+                          [Sat [None; Some true; Some false; Some false; Some true; Some true; Some true];
+                           Unknown]) nat Nat.eqb 1 10 s QDS true 1 ps with
+       | Abort ps' => calls ps' = 2
+       | _ => False
+       end
+   | None => False
+   end) /\
+  (match c17_ex_solver (KDummy ST) with
+   | Some (s, ps) =>
+       match dyn_query (script_oracle [Unknown]) nat Nat.eqb 1 10 s QDS true 1 ps with
+       | Abort ps' => calls ps' = 1
+       | _ => False
+       end
+   | None => False
+   end).
+Proof. vm_compute. split; reflexivity. Qed.
+
 Print Assumptions C17_unknown_aborts.
 Print Assumptions C17_script_unknown_aborts.
+Print Assumptions C17_dynamic_unknown_aborts.
+Print Assumptions C17_dynamic_new_no_answer.
+Print Assumptions C17_dynamic_script_unknown_aborts.
+Print Assumptions C17_unknown_aborts_since.
